@@ -5,6 +5,7 @@ package main
 import (
 	"fmt"
 	"net/http"
+	"net/url"
 	"reflect"
 	"runtime"
 	"sort"
@@ -413,6 +414,8 @@ func famHistWant(want string) family {
 			switch s {
 			case 0: // F2 regression shape: a configuration whose failing preflight reveals the debug mode
 				a = cors.Config{Origins: []string{"https://a.com"}}
+				// B: credentialed, wildcard AND explicit request-header names
+				bcfg = cors.Config{Origins: []string{"https://example.com"}, Credentialed: true, RequestHeaders: []string{"X-Foo", "*"}, Methods: []string{"PUT"}}
 			case 1: // a state that is valid only thanks to the tolerance switches
 				a = cors.Config{Origins: []string{"http://example.com", "https://*.com"}, Credentialed: true, Methods: []string{"PUT"},
 					ExtraConfig: cors.ExtraConfig{DangerouslyTolerateInsecureOrigins: true, DangerouslyTolerateSubdomainsOfPublicSuffixes: true}}
@@ -555,6 +558,21 @@ func famHistWant(want string) family {
 					}
 				}()
 				histCount++
+				kept := m.Wrap(http.HandlerFunc(func(http.ResponseWriter, *http.Request) {})) // wrapped before any operation
+				defer func() {
+					fresh := m.Wrap(http.HandlerFunc(func(http.ResponseWriter, *http.Request) {}))
+					for _, q := range probes {
+						ans := func(h http.Handler) string {
+							w := &rw{h: http.Header{}, status: -1}
+							h.ServeHTTP(w, &http.Request{Method: q.method, Header: cloneHdr(q.hdrs), URL: &url.URL{Path: "/"}, Proto: "HTTP/1.1"})
+							return strconv.Itoa(w.status) + "|" + strings.Join(w.h["Access-Control-Allow-Origin"], ",") + "|" + strings.Join(w.h["Vary"], ",")
+						}
+						if a1, a2 := ans(kept), ans(fresh); a1 != a2 {
+							o.emitDirect("hist-kept-handler", false, "after the history, the handler wrapped before it answers "+truncate(a1)+" and a handler wrapped now "+truncate(a2)+" to "+str(q.sx()))
+							break
+						}
+					}
+				}()
 				obs := SL{observe(m, nil, probes)}
 				opsx := SL{}
 				for _, op := range ops {
@@ -1226,6 +1244,44 @@ func famTwins(o *Out, r R, tier string) {
 				t.Origins = perm
 				emitTwin("twin-psl-nested", c, t)
 				emitTwin("twin-psl-nested", t, c)
+			}
+		}
+	}
+	// dense lists over a small universe (discrete hosts, deeper hosts under other schemes or ports, wildcards over inner
+	// nodes) against their reversal and two permutations
+	{
+		var uni []string
+		for _, l1 := range []string{"a", "b", "ab"} {
+			uni = append(uni, l1+".example.com")
+			for _, l2 := range []string{"a", "b"} {
+				uni = append(uni, l2+"."+l1+".example.com")
+			}
+		}
+		uni = append(uni, "example.com")
+		nd := 10
+		if tier == "thorough" {
+			nd = 150
+		}
+		for i := 0; i < nd; i++ {
+			var pats []string
+			for j := 3 + r.Intn(6); j > 0; j-- {
+				h := r.pick(uni)
+				if r.chance(1, 3) {
+					h = "*." + h
+				}
+				pats = append(pats, r.pick([]string{"https", "http", "https"})+"://"+h+r.pick([]string{"", "", ":81", ":*"}))
+			}
+			c := cors.Config{Origins: pats, ExtraConfig: cors.ExtraConfig{DangerouslyTolerateInsecureOrigins: true}}
+			for x := 0; x < 3; x++ {
+				t := cloneCfg(c)
+				if x == 0 {
+					for i, j := 0, len(t.Origins)-1; i < j; i, j = i+1, j-1 {
+						t.Origins[i], t.Origins[j] = t.Origins[j], t.Origins[i]
+					}
+				} else {
+					t.Origins = r.perm(pats)
+				}
+				emitTwin("twin-dense", c, t)
 			}
 		}
 	}
